@@ -156,10 +156,12 @@ func zip(a, b BitVec, f func(Bit, Bit) Bit) BitVec {
 	return out
 }
 
-func (a BitVec) And(b BitVec) BitVec    { return zip(a, b, bitAnd) }
-func (a BitVec) Or(b BitVec) BitVec     { return zip(a, b, bitOr) }
-func (a BitVec) Xor(b BitVec) BitVec    { return zip(a, b, bitXor) }
-func (a BitVec) AndNot(b BitVec) BitVec { return zip(a, b, func(x, y Bit) Bit { return bitAnd(x, bitNot(y)) }) }
+func (a BitVec) And(b BitVec) BitVec { return zip(a, b, bitAnd) }
+func (a BitVec) Or(b BitVec) BitVec  { return zip(a, b, bitOr) }
+func (a BitVec) Xor(b BitVec) BitVec { return zip(a, b, bitXor) }
+func (a BitVec) AndNot(b BitVec) BitVec {
+	return zip(a, b, func(x, y Bit) Bit { return bitAnd(x, bitNot(y)) })
+}
 
 // Add: exact when no bit position has two possibly-non-zero operands (no carries), or both constant.
 func (a BitVec) Add(b BitVec) BitVec {
